@@ -127,9 +127,9 @@ def handleC16 (op : String) (args : List Sexp) : Option Ans :=
     let b ← toBytes? b
     let r := (Code.codeOp b).run
     pure (match r.1 with
-      | .panic s => if Sites.openIds.contains s then (if r.2.alloc ≤ 64 * b.length + 16777216 then .ok (tag "pass") else .ok (list [tag "fail", tag "alloc"]))
+      | .panic s => if Sites.openIds.contains s then (if max r.2.alloc r.2.big ≤ 64 * b.length + 16777216 then .ok (tag "pass") else .ok (list [tag "fail", tag "alloc"]))
                     else .ok (list [tag "fail", tag (Sites.report s)])
-      | _ => if r.2.alloc ≤ 64 * b.length + 16777216 then .ok (tag "pass") else .ok (list [tag "fail", tag "alloc"]))
+      | _ => if max r.2.alloc r.2.big ≤ 64 * b.length + 16777216 then .ok (tag "pass") else .ok (list [tag "fail", tag "alloc"]))
   | _, _ => do
     let r ← runPlain op args
     pure (outAns id r)
